@@ -379,7 +379,7 @@ def check(prop, tier):
     samples += replay_samples
     faults = {}
     for k, v in cnt.items():
-        if k.startswith("fault.") or k.startswith("kill") or k.startswith("restart.") or k.startswith("clock.") or k.startswith("stale.") or k.startswith("drop") or k == "disk.perturb_fired" or k.startswith("ro_session") or k.startswith("header.") or k.startswith("version.") or k.startswith("xproc.") or k.startswith("twin.") or k in ("ops_from_second_thread", "open.via_symlink", "names.link_path_fitted", "names.fitted_to_path_length"):
+        if k.startswith("fault.") or k.startswith("kill") or k.startswith("restart.") or k.startswith("clock.") or k.startswith("stale.") or k.startswith("drop") or k == "disk.perturb_fired" or k.startswith("ro_session") or k.startswith("header.") or k.startswith("version.") or k.startswith("xproc.") or k.startswith("twin.") or k.startswith("misdirected.") or k.startswith("crowd.") or k.startswith("h5knob.") or k in ("ops_from_second_thread", "open.via_symlink", "names.link_path_fitted", "names.fitted_to_path_length", "delete.misdirected_checked", "names.reused_name_of_deleted"):
             faults[k] = v
     ops_by_kind = {k[3:]: v for k, v in cnt.items() if k.startswith("op.")}
     probes = PROBES.get(prop, [])
@@ -436,13 +436,14 @@ PROBES = {
     "C01": ["array.write", "array.read", "array.read_converted", "array.read_calibrated", "array.append", "array.resize", "array.write_whole", "restart.checked", "array.create.deflate"],
     "C02": ["restart.checked", "restart.snapshot", "restart.same_path", "open.ro", "open.rw", "clock.backward", "clock.forward", "restart.other_process",
             "twin.unobserved_history_compared", "ops_from_second_thread", "open.via_symlink"],
-    "C03": ["observe", "restart.checked"],
-    "C04": ["delete.checked", "delete.stale_handles_checked", "names.link_path_fitted"],
+    "C03": ["observe", "restart.checked", "live_handles.member_lookups", "replace_member.kind0", "names.reused_name_of_deleted"],
+    "C04": ["delete.checked", "delete.stale_handles_checked", "names.link_path_fitted", "delete.misdirected_checked", "misdirected.namesake"],
     "C08": ["rejected_calls"],
     "C09": ["ro_session.checked", "ro.catalogue_sessions", "ro.mutators_effective_in_rw", "open.via_symlink"],
-    "C11": ["kill.checked", "flush.ok", "close.kept_handles", "stale.closed_calls", "fault.flush.eio.fired", "fault.flush.enospc.fired", "kill.real_sigkill", "kill.reader_opens_rw"],
+    "C11": ["kill.checked", "flush.ok", "close.kept_handles", "stale.closed_calls", "fault.flush.eio.fired", "fault.flush.enospc.fired", "kill.real_sigkill", "kill.reader_opens_rw",
+            "fault.close.eio.fired", "fault.close.enospc.fired", "fault.close.persistent", "fault.close.reported_by_exception", "h5knob.small_metadata_cache_opens"],
     "C12": ["ids.new", "xproc.processes", "xproc.steps_in_a_second_shared_with_another_process", "clock.same_second", "clock.backward"],
-    "C13": ["dims.append.sampled", "dims.append.range", "dims.append.set", "dims.append.alias", "dims.append.frame", "dims.set", "dims.delete_all", "dims.alias_ticks_write", "restart.checked"],
+    "C13": ["dims.append.sampled", "dims.append.range", "dims.append.set", "dims.append.alias", "dims.append.frame", "dims.set", "dims.delete_all", "dims.alias_ticks_write", "restart.checked", "live_handles.dimension_checked"],
     "C14": ["prop.assign", "prop.clear", "restart.checked"],
     "C15": ["frame.write_row", "frame.write_cell", "frame.write_col", "frame.read_row", "frame.read_cell", "frame.read_col", "frame.shrink", "frame.grow", "restart.checked"],
     "C16": ["abuse.calls", "stale.calls", "drop"],
